@@ -713,7 +713,7 @@ def tie_fftw(case):
             ref = phase @ (np.asarray(a, dtype=CLD) * wi)
             e = maxerr(got, ref)
             if not e <= 1e-9 * max(float(np.abs(ref).max()), float(np.abs(wi).max()) * 1e-3, 1e-300):
-                t.bad.append(('fft-per-point-weights', 'FastFourierTransform(%s).forward of a %s on a %d-D grid with per-point weights differs from Σ f·w·exp(-iux) by %.3g' % (
+                t.bad.append(('tie-fft-per-point-weights', 'FastFourierTransform(%s).forward of a %s on a %d-D grid with per-point weights differs from Σ f·w·exp(-iux) by %.3g' % (
                     'emulate_fftshifts' if cfg == 'emu' else 'fftshifts', name, ndim, e)))
             if name == 'impulse':
                 res[cfg] = got
